@@ -142,7 +142,19 @@ func funcKey(f *ssa.Function) string {
 }
 
 // Fn returns the module function with the given key or nil.
-func (p *Program) Fn(key string) *ssa.Function { return p.byName[key] }
+func (p *Program) Fn(key string) *ssa.Function {
+	if f := p.byName[key]; f != nil {
+		return f
+	}
+	// a method may have been moved between value and pointer receiver: "(pogreb.T).M" <-> "(*pogreb.T).M"
+	if strings.HasPrefix(key, "(*") {
+		return p.byName["("+strings.TrimPrefix(key, "(*")]
+	}
+	if strings.HasPrefix(key, "(") {
+		return p.byName["(*"+strings.TrimPrefix(key, "(")]
+	}
+	return nil
+}
 
 // ModuleFuncs returns all source functions (incl. closures) of the module packages, sorted by key.
 func (p *Program) ModuleFuncs(pkgPrefix string) []*ssa.Function {
